@@ -29,7 +29,7 @@ def _thresholds(mode, n):
     return tight, loose
 
 
-def _results(n, e_labels, g_labels, policy, sym_conf=False):
+def _results(n, e_labels, g_labels, policy, sym_conf=False, long_estimates=False):
     pose = S.Pose("base_link", "id")
     results, rows = [], []
     for i in range(n):
@@ -38,15 +38,25 @@ def _results(n, e_labels, g_labels, policy, sym_conf=False):
         off = real(f"r{i}_offset", -6, 6)
         conf = real(f"r{i}_conf", 0, 1) if sym_conf else [0.62, 0.91, 0.15, 0.77, 0.43][i]
         est = S.SObj(f"e{i}", pose, el, off, 12.0 * i, conf=conf)
+        if long_estimates:  # estimates 2 m longer than the ground truth: plane distance != centre distance, IoU3D != IoU2D
+            from perception_eval.common.shape import Shape, ShapeType
+            est.obj.state.shape = Shape(ShapeType.BOUNDING_BOX, (S.SIZE[0], S.SIZE[1] + 2.0, S.SIZE[2] + 1.0))
         gt = S.SObj(f"g{i}", pose, gl, 0.0, 12.0 * i, is_gt=True) if gl is not None else None
         results.append(OR.DynamicObjectWithPerceptionResult(est.obj, gt.obj if gt else None, S.POLICIES[policy]))
         rows.append((est, gt))
     return results, rows
 
 
-def tp_monotone(mode, n, policy):
+PAST = {"center": "plane", "plane": "center", "iou2d": "iou3d", "iou3d": "iou2d"}
+
+
+def tp_monotone(mode, n, policy, with_past=False):
     tight, loose = _thresholds(mode, len(TARGETS))
-    results, rows = _results(n, [CAR, PED, UNK], [None, CAR, PED], policy)
+    results, rows = _results(n, [CAR, PED, UNK], [None, CAR, PED], policy, long_estimates=with_past)
+    if with_past:
+        # the result objects have a past: they were already judged under another matching mode at the same thresholds
+        get_positive_objects(results, TARGETS, MODES[PAST[mode]], list(tight))
+        get_negative_objects([g.obj for _, g in rows if g is not None], results, TARGETS, MODES[PAST[mode]], list(tight))
     gts = [g.obj for _, g in rows if g is not None]
     extra = S.SObj("gx", S.Pose("base_link", "id", tag="ego2"), CAR, 40.0, -20.0, is_gt=True).obj
     gts.append(extra)
@@ -109,6 +119,7 @@ def obligations(pid, tier):
     quick = tier == "quick"
     tp = [dict(mode=m, n=n, policy=p) for m in (("center", "plane", "iou2d") if quick else MODES) for n in ((1, 2) if quick else (1, 2, 3))
           for p in (("default", "allow_any") if n == 1 else ("default",))]
+    tp += [dict(mode=m, n=1, policy="default", with_past=True) for m in (("center", "plane", "iou2d") if quick else MODES)]
     ap = [dict(mode=m, n=n, ngt_extra=e, aph=a) for m in (("center", "iou2d") if quick else ("center", "iou2d", "plane"))
           for n in ((1, 2, 3) if m == "center" else (1, 2)) for e in (0, 1) for a in (False, True)
           if not (quick and n == 3 and a)]
